@@ -13,6 +13,22 @@ import (
 
 var PowerReduction = math.NewIntFromUint64(1e18)
 
+// MaxValidatorPower bounds the voting power of a single validator so that the total power of a full set
+// (Params.Validate allows at most 100 validators) can never exceed CometBFT's MaxTotalVotingPower (MaxInt64/8).
+const MaxValidatorPower uint64 = (1<<63 - 1) / 8 / 100
+
+// AddPower returns current+delta, or false if the result is not a voting power CometBFT could accept.
+func AddPower(current uint64, delta math.Int) (uint64, bool) {
+	if delta.IsNegative() || !delta.IsUint64() {
+		return 0, false
+	}
+	d := delta.Uint64()
+	if current > MaxValidatorPower || d > MaxValidatorPower-current {
+		return 0, false
+	}
+	return current + d, true
+}
+
 func (v *Validator) CMPubkey() tmcrypto.PublicKey {
 	return tmcrypto.PublicKey{Sum: &tmcrypto.PublicKey_Secp256K1{Secp256K1: slices.Clone(v.Pubkey)}}
 }
